@@ -753,7 +753,7 @@ func TestGenC16(t *testing.T) {
 	// (3) NoiseConn.Write of more than one record with a write timeout somewhere in the wire stream: the count it
 	// returns is the number of plaintext bytes the connection has taken responsibility for, so flushing what is
 	// pending and resubmitting b[count:] must give the peer exactly b
-	for i := 0; i < scale(40, 600); i++ {
+	for i := 0; i < scale(40, 160); i++ {
 		rr := r.sub(880000 + i)
 		pp := newMachinePair(rr.sub(1), pairCfg{minI: 0, maxI: 2, minR: 0, maxR: 2})
 		if pp.errI != nil || pp.errR != nil {
